@@ -105,6 +105,16 @@ InstId find_instruction(const char* s, size_t len, const uint32_t* name_table, c
     return InstId(inst_id);
   }
 
+  // The binary search above requires all names in the [start, end) range to be sorted. This is not the case of
+  // AArch64, where the range of a letter spans general purpose and SIMD instructions (two separately ordered groups),
+  // so do a linear search before concluding that the name doesn't exist.
+  for (size_t inst_id = name_index.data[prefix].start; inst_id < end; inst_id++) {
+    size_t name_size = decode_to_buffer(name_data, name_table[inst_id], InstStringifyOptions::kNone, string_table);
+    if (Support::compare_string_views(s, len, name_data, name_size) == 0) {
+      return InstId(inst_id);
+    }
+  }
+
   return BaseInst::kIdNone;
 }
 
